@@ -37,7 +37,7 @@ let () =
 let () =
   register "dqadm" (fun v ->
       match v with
-      | List [sh; s] -> Atom (if ShellDQ.admissibleb (shell_of sh) (cl (string_ s)) then "1" else "0")
+      | List [sh; s] -> Atom (if ShellDQ.outside_known_class (shell_of sh) (cl (string_ s)) then "1" else "0")
       | _ -> raise (Shape "dqadm args"))
 
 (* ---- C04: lookup tables -------------------------------------------------------------------
